@@ -550,3 +550,27 @@ pub proof fn lemma_pack_keeps_inv(o: DsV, n: DsV, p: Seq<char>, keys: Seq<Seq<ch
         lemma_pack_ranges(texts, j);
     }
 }
+
+/// C18 (hash order): `pack()` serialises the stage in the hash table's iteration order, so two runs may produce
+/// different pack bytes and names — but in BOTH every staged object is indexed at a byte range that holds exactly
+/// its own JSON text, i.e. the digest -> bytes mapping is the same
+pub proof fn lemma_pack_order_free(o: DsV, n1: DsV, p1: Seq<char>, k1: Seq<Seq<char>>, t1: Seq<Seq<u8>>, n2: DsV, p2: Seq<char>, k2: Seq<Seq<char>>, t2: Seq<Seq<u8>>, d: Seq<char>)
+    requires
+        pack_post(o, n1, p1, k1, t1), pack_post(o, n2, p2, k2, t2),
+        !o.store.contains_key(pkey(p1)), !o.store.contains_key(pkey(p2)),
+        forall|v: Value| wf_obj_text(#[trigger] json_text(v)),
+        o.stage.contains_key(d),
+    ensures
+        n1.co.contains_key(d) && n2.co.contains_key(d),
+        n1.store[pkey(p1)].subrange(n1.co[d].1 as int, n1.co[d].1 + n1.co[d].2) == json_text(o.stage[d]),
+        n2.store[pkey(p2)].subrange(n2.co[d].1 as int, n2.co[d].1 + n2.co[d].2) == json_text(o.stage[d]),
+{
+    let j1 = choose|j: int| 0 <= j < k1.len() && #[trigger] k1[j] == d;
+    let j2 = choose|j: int| 0 <= j < k2.len() && #[trigger] k2[j] == d;
+    assert(key_in(k1, k1.len() as int, d)); assert(key_in(k2, k2.len() as int, d));
+    assert forall|i: int| 0 <= i < t1.len() implies wf_obj_text(#[trigger] t1[i]) by { assert(t1[i] == json_text(o.stage[k1[i]])); }
+    assert forall|i: int| 0 <= i < t2.len() implies wf_obj_text(#[trigger] t2[i]) by { assert(t2[i] == json_text(o.stage[k2[i]])); }
+    lemma_pack_ranges(t1, j1);
+    lemma_pack_ranges(t2, j2);
+    assert(n1.co[k1[j1]].1 == obj_off(t1, j1)); assert(n2.co[k2[j2]].1 == obj_off(t2, j2));
+}
